@@ -794,4 +794,5 @@ func rootHashOf(n *iavl2.Node) []byte {
 	}
 	return n.GetHash()
 }
+
 var _ = runBigPrune
